@@ -1167,6 +1167,8 @@ class _FloatMeta(type):
             return SymReal(core.toreal(x.e), None, Fraction(x.v))
         if isinstance(x, np.ndarray) and x.dtype == object and x.size == 1:
             return cls(x.reshape(-1)[0])
+        if getattr(x, "_symx_passthrough", False):
+            return x
         return builtins.float(x)
 
     def __eq__(cls, other):
